@@ -193,6 +193,70 @@ def errors(ctx, plat_, pid, fail_at):
         ctx.prove(isinstance(exc, OSError) and exc.errno == e and not is_psutil, "other-errors-unchanged", detail=info)
 
 
+@harness("C20.errors_oneshot", quick=[dict(plat_=p) for p in ("macos", "freebsd")], thorough=[dict(plat_=p) for p in ("macos", "freebsd", "openbsd", "netbsd")])
+def errors_oneshot(ctx, plat_):
+    """the same error contract inside a oneshot() block: the block first caches the process record (status() is asked while the
+    process is in one state), then the process changes state (exits and stays a zombie / a zombie is reaped), then a method's
+    native call fails with ESRCH: ZombieProcess or NoSuchProcess is decided by what the process is NOW, not by the cached record"""
+    pkg, PL, mods, lab, family = get(plat_)
+    pid = 5
+    meths = [m for m in methods_of(PL, plat_) if m not in ("status", "oneshot_enter", "oneshot_exit")]
+    m = ctx.choice("method", meths)
+    z0, z1 = ctx.flag("zombie_when_cached"), ctx.flag("zombie_now")
+    lab.windows = False
+    cur = {"z": z0}
+    n = len(PL.kinfo_proc_map)
+
+    def rec(pid_):
+        r = [0] * n
+        r[PL.kinfo_proc_map["status"]] = PL.cext.SZOMB if cur["z"] else PL.cext.SRUN
+        r[PL.kinfo_proc_map["name"]] = "nm"
+        return tuple(r)
+
+    lab.answers["proc_oneshot_info" if family == "bsd" else "proc_kinfo_oneshot"] = rec
+    lab.answers["pids"] = lambda: [0, 5]
+    lab.answers["proc_name"] = lambda pid_: "nm"
+    lab.answers.setdefault("pid_exists", lambda pid_: True)
+    try:
+        p = PL.Process(pid)
+        p._name = "cached"
+        lab.arm()
+        p.oneshot_enter()
+        try:
+            p.status()                       # fills the block's cache while the process is in state z0
+            cur["z"] = z1
+            lab.arm(fail_at=0, fail_errno=errno.ESRCH, winerror=None)
+            try:
+                getattr(p, m)(*ARGS.get(m, ()))
+                exc = None
+            except HarnessError:
+                if lab.ncalls > 0:
+                    ctx.reach("returned-or-needs-more-stubs")
+                    return
+                raise
+            except Exception as x:  # noqa: BLE001
+                exc = x
+        finally:
+            calls, call_args = list(lab.calls), list(lab.call_args)
+            lab.arm()
+            p.oneshot_exit()
+    finally:
+        lab.arm()
+    info = f"{plat_}.{m}() inside oneshot(): cached while zombie={z0}, now zombie={z1}, native-calls={calls[:3]} -> {type(exc).__name__ if exc is not None else 'returned'}: {exc}"
+    if exc is None or not calls:
+        ctx.reach("served-from-the-cache")
+        return
+    a0 = call_args[0][0] if call_args[0] else None
+    if not (isinstance(a0, int) and not isinstance(a0, bool) and a0 == pid):
+        ctx.reach("system-wide-native-failure")
+        return
+    if (plat_, m, "ESRCH") in SPECIAL:
+        ctx.prove(isinstance(exc, (pkg.ZombieProcess, pkg.NoSuchProcess)) and exc.pid == pid, "documented-special-case", detail=info)
+        return
+    want = pkg.ZombieProcess if z1 else pkg.NoSuchProcess
+    ctx.prove(type(exc) is want and exc.pid == pid and exc.name == "cached", "no-such-process->NSP/Zombie[inside-oneshot]", detail=info)
+
+
 # ---- record layout ---------------------------------------------------------------------------------------------------------
 
 def c_slot_comments(path, func, branch=None):
